@@ -158,6 +158,8 @@ def parse_operand(s):
 
 def parse_rvalue(s):
     s = s.strip()
+    if s.startswith('no_retag '):
+        s = s[len('no_retag '):]
     m = re.match(r'^(\w+)\(', s)
     if m and (m.group(1) in BINOPS or m.group(1) in UNOPS) and match_paren(s, m.end() - 1) == len(s) - 1:
         parts = split_top(s[m.end():-1])
